@@ -10,6 +10,7 @@ require (
 )
 
 require (
+	github.com/anishathalye/porcupine v1.3.0
 	github.com/golang-jwt/jwt/v4 v4.5.2
 	github.com/jonboulle/clockwork v0.2.2 // indirect
 	github.com/mattermost/xml-roundtrip-validator v0.1.0 // indirect
